@@ -97,6 +97,13 @@ pub trait Engine: Sync {
     fn rule(&self) -> String;
     fn assumptions(&self) -> Vec<String>;
     fn state_measure(&self) -> &'static str;
+    /// For engines that execute the code under test in this process and whose property says that
+    /// repeating an operation never changes its result: the signature under which "the same
+    /// scenario executed twice in one fresh process gives two different traces" is reported.
+    /// (None: such a difference can only be a defect of the harness.)
+    fn repeat_signature(&self) -> Option<&'static str> {
+        None
+    }
 }
 
 #[derive(Clone, Debug)]
@@ -419,8 +426,41 @@ pub fn run_batch<E: Engine>(engine: &E, cfg: &BatchCfg) -> BatchReport {
         std::fs::write(path, text).unwrap_or_else(|e| harness_error(&format!("cannot write {path}: {e}")));
     }
 
-    if !a.det_mismatch.is_empty() && !cfg.tolerate_det_mismatch {
+    // evidence and replays normally live in the verification directory; experiments (seeded
+    // changes, self-tests) redirect them so that committed evidence is never overwritten
+    let out_dir = std::env::var("VERIF_OUT_DIR").map(PathBuf::from).unwrap_or_else(|_| cfg.verif_dir.clone());
+    let replay_dir = out_dir.join("replays");
+    let _ = std::fs::create_dir_all(&replay_dir);
+    let mut pre_found: Vec<PreFound> = cfg.pre_found.clone();
+    let mut tolerate = cfg.tolerate_det_mismatch;
+    if !a.det_mismatch.is_empty() && !tolerate {
         a.det_mismatch.sort();
+        // A run that gives two different traces when executed twice: either the harness is not
+        // deterministic, or the code under test keeps state from one operation to the next. The
+        // two are told apart in a fresh process, which executes that one scenario twice.
+        if let Some(sig) = engine.repeat_signature() {
+            for &run in a.det_mismatch.iter().take(8) {
+                let fault_free = cfg.fault_free_every > 0 && run % cfg.fault_free_every == cfg.fault_free_every - 1;
+                let mut rng = Rng::new(cfg.seed, engine.stream(), run);
+                let sc = engine.generate(&mut rng, fault_free);
+                let rf = ReplayFile { property: engine.property().to_string(), engine: format!("{}x2", engine.engine_name()), seed: cfg.seed, run, signature: sig.to_string(), detail: String::new(), trace_hash: String::new(), scenario: serde_json::to_value(&sc).unwrap() };
+                let path = replay_dir.join(format!("{}-{:016x}.probe.json", engine.property(), fnv_str(sig)));
+                std::fs::write(&path, serde_json::to_string_pretty(&rf).unwrap()).unwrap_or_else(|e| harness_error(&format!("cannot write replay: {e}")));
+                let exe = std::env::current_exe().unwrap_or_else(|e| harness_error(&format!("current_exe: {e}")));
+                let run_once = || std::process::Command::new(&exe).arg("replay").arg(&path).env("VERIF_REPLAY_QUIET", "1").output().unwrap_or_else(|e| harness_error(&format!("cannot spawn replay: {e}")));
+                let (o1, o2) = (run_once(), run_once());
+                let (s1, s2) = (String::from_utf8_lossy(&o1.stdout).to_string(), String::from_utf8_lossy(&o2.stdout).to_string());
+                let _ = std::fs::remove_file(&path);
+                if o1.status.code() == Some(1) && s1.contains(&format!("replayed signature={sig}")) && s1 == s2 {
+                    let detail: String = s1.lines().filter_map(|l| l.strip_prefix("  | ")).collect::<Vec<_>>().join("\n");
+                    pre_found.push(PreFound { engine: format!("{}x2", engine.engine_name()), signature: sig.to_string(), detail, scenario: serde_json::to_value(&sc).unwrap() });
+                    tolerate = true;
+                    break;
+                }
+            }
+        }
+    }
+    if !a.det_mismatch.is_empty() && !tolerate {
         harness_error(&format!(
             "determinism self-check failed: runs {:?} gave different trace hashes when executed twice",
             &a.det_mismatch[..a.det_mismatch.len().min(8)]
@@ -447,14 +487,9 @@ pub fn run_batch<E: Engine>(engine: &E, cfg: &BatchCfg) -> BatchReport {
     }
     let mut exit_code = 0;
     let mut reported = vec![];
-    // evidence and replays normally live in the verification directory; experiments (seeded
-    // changes, self-tests) redirect them so that committed evidence is never overwritten
-    let out_dir = std::env::var("VERIF_OUT_DIR").map(PathBuf::from).unwrap_or_else(|_| cfg.verif_dir.clone());
-    let replay_dir = out_dir.join("replays");
-    let _ = std::fs::create_dir_all(&replay_dir);
     // violations established outside the batch
     let mut pre_reported = 0i64;
-    for pf in &cfg.pre_found {
+    for pf in &pre_found {
         if let Some(k) = known.matches(engine.property(), &pf.signature, &pf.detail) {
             if known_hit.insert(k.what.clone()) {
                 println!("KNOWN-FINDING: property={} {}", engine.property(), k.what);
@@ -473,10 +508,10 @@ pub fn run_batch<E: Engine>(engine: &E, cfg: &BatchCfg) -> BatchReport {
         exit_code = 1;
         pre_reported += 1;
     }
-    if cfg.tolerate_det_mismatch && (!a.det_mismatch.is_empty() || !by_sig.is_empty()) {
-        // the batch ran 'threads' workers in one process against code whose results depend on
-        // concurrent activity: what it found cannot be replayed and is only counted
-        println!("note: {} run(s) of the batch differed when executed twice and {} signature(s) were seen in the batch; not minimised (results depend on concurrent decodes, see the violation above)", a.det_mismatch.len(), by_sig.len());
+    if tolerate && (!a.det_mismatch.is_empty() || !by_sig.is_empty()) {
+        // the batch ran many scenarios in one process against code whose results depend on what
+        // else the process does or did: what it found cannot be replayed and is only counted
+        println!("note: {} run(s) of the batch differed when executed twice and {} signature(s) were seen in the batch; not minimised (results depend on other activity in the process, see the violation above)", a.det_mismatch.len(), by_sig.len());
         by_sig.clear();
     }
     for (sig, f) in by_sig.iter().take(12) {
